@@ -13,7 +13,7 @@ use serde::{Deserialize, Serialize};
 /// error model of the library's f32 autocorrelation estimate (absolute, in units of rho)
 pub fn rho_delta(pm: &ParamModel) -> f64 {
     let r = (pm.loc.0 / pm.scale.0).abs();
-    2e-5 * (1.0 + r * r / 100.0)
+    2e-5 * (1.0 + r / 10.0)
 }
 pub const ESS_RTOL: f64 = 1e-3;
 
@@ -263,7 +263,7 @@ fn check_calib(case: &CalibCase, cov: &mut Cov) -> CheckResult {
 
 pub fn run(ctx: &mut Ctx) {
     ctx.rule = "sample arrays as in C11 plus AR(1) phi in (-0.9,0.99), half-lengths 94..108 around the 100-row brute-force/FFT switch and non-power-of-two FFT paddings; non-trivial = reference tau > 1.5 (correlated) or a half-length in 96..104 or a metamorphic/calibration case; distinct by case fingerprint".into();
-    ctx.assume("interval oracle: the estimator is monotone in every autocorrelation, so the library value must lie in [MN/tau(rho+d), MN/tau(rho-d)](1+-1e-3) with d = 2e-5(1+(loc/scale)^2/100), the f32 error model of the autocovariance (calibrated; observed widths in evidence)");
+    ctx.assume("interval oracle: the estimator is monotone in every autocorrelation, so the library value must lie in [MN/tau(rho+d), MN/tau(rho-d)](1+-1e-3) with d = 2e-5(1+|loc/scale|/10), the f32 error model of the autocovariance (calibrated; observed widths in evidence)");
     ctx.assume("divisor of the within-half variance (n or n-1) not fixed by the statement: both accepted");
     let t = ctx.tier;
     let long = if t == Tier::Quick { 2000 } else { 5000 };
